@@ -153,8 +153,18 @@ def one_case(rng, sections, excl):
         out = os.path.join(d, 'sample.yaml')
         outj = os.path.join(d, 'sample.json')
         with mock.patch('oslo_policy.generator.get_policies_dict', return_value=pol):
-            generator._generate_sample(list(pol), out, 'yaml', exclude_deprecated=excl)
-            generator._generate_sample(list(pol), outj, 'json', exclude_deprecated=excl)
+            if rng.random() < 0.5:
+                # through the console entry point (oslopolicy-sample-generator), options as command-line arguments
+                from oslo_config import cfg as _cfg
+                for fmt, path in (('yaml', out), ('json', outj)):
+                    args = [a for ns in pol for a in ('--namespace', ns)] + ['--output-file', path, '--format', fmt]
+                    if excl:
+                        args.append('--exclude-deprecated')
+                    generator.generate_sample(args=args, conf=_cfg.ConfigOpts())
+                c['_via'] = 'generate_sample(args)'
+            else:
+                generator._generate_sample(list(pol), out, 'yaml', exclude_deprecated=excl)
+                generator._generate_sample(list(pol), outj, 'json', exclude_deprecated=excl)
         text = open(out, encoding='utf-8').read()
         c['_text'] = text
         c['lines'] = classify(text)
